@@ -238,6 +238,13 @@ where
         if !with_pool(|p| p.owns(c.0, c.1)) {
             st.x("chunk-outside-granted-block", &format!("start={} size={}", c.0, c.1));
         }
+        // the header is where the model puts it (ArenaHeader.header_start): the header_size bytes at the low end of the
+        // chunk when bumping upwards, at the high end when bumping downwards; the content range is the rest
+        let (hsz, up) = (header_size::<A>(), <S as bump_scope::settings::BumpAllocatorSettings>::UP);
+        let header_ok = if up { c.6 == c.0 + hsz && c.7 == c.0 + c.1 && c.8 == c.0 + c.1 } else { c.6 == c.0 && c.7 + hsz == c.0 + c.1 && c.8 == c.0 + c.1 };
+        if !header_ok {
+            st.x("chunk-outside-granted-block", &format!("header not where the model puts it: start={} size={} content={}..{} end={} header_size={hsz} up={up}", c.0, c.1, c.6, c.7, c.8));
+        }
     }
     if let Some(i) = (cur_idx >= 0).then_some(cur_idx as usize) {
         let m = <S as bump_scope::settings::BumpAllocatorSettings>::MIN_ALIGN;
